@@ -120,6 +120,8 @@ def subj_selector(b, kind, pattern):
         r = rng.random()
         if r < 0.5:
             p["initialize"] = rng.randrange(lim)
+            if rng.random() < 0.12:
+                p["initialize"] = -1 - rng.randrange(lim)  # counted from the end
         elif r < 0.7:
             p["initialize"] = "random"
             p["random_state"] = rng.randrange(100)
@@ -199,7 +201,10 @@ def subj_dch(b, kind, pattern):
     nlow = rng.randint(1, min(2, m))
     p = {}
     if rng.random() < 0.8:
-        ia = b.add({"kind": "index", "n": m, "k": nlow, "seed": _seed(rng)}, "index_list", "C")
+        rec = {"kind": "index", "n": m, "k": nlow, "seed": _seed(rng)}
+        if rng.random() < 0.3:
+            rec["negative"] = True  # columns counted from the end
+        ia = b.add(rec, "index_list", "C")
         p["low_dim_idx"] = {"$pylist": ia}
     elif m == 1 or nlow == 1:
         pass
@@ -580,7 +585,26 @@ def gen_class_trace(b, kind, pattern):
         for o in reads:
             o["env"] = {"rng": {"seed": _seed(rng)}}
         ops.extend(reads)
-        between = rng.choice(["reads_only", "other_object", "other_object", "restart"])
+        between = rng.choice(["reads_only", "other_object", "other_object", "restart", "caller_overwrites_fit_arrays"])
+        fit_names = set()
+        if between == "caller_overwrites_fit_arrays":
+            # after fit returned, the caller reuses the buffers it passed to fit; reads whose
+            # own arguments are untouched must not change (the model may not alias them)
+            for v in s["fitB"].values():
+                if isinstance(v, dict) and "$h" in v:
+                    spec = b.heap[v["$h"]]
+                    if spec.get("storage") in ("readonly", "memmap"):
+                        spec["storage"] = "C"
+                    if "shape" in spec and spec.get("kind") in D.KINDS:
+                        rec = dict(_strip(spec))
+                        rec["seed"] = _seed(rng)
+                    else:
+                        a = D.make_array(spec)
+                        if a.dtype.kind != "f":
+                            continue
+                        rec = {"kind": "gauss", "shape": list(a.shape) if a.ndim == 2 else [a.shape[0], 1], "seed": _seed(rng), "squeeze": a.ndim == 1}
+                    fit_names.add(v["$h"])
+                    ops.append({"op": "MUTATE", "h": v["$h"], "recipe": rec})
         if between == "other_object":
             s2 = SUBJECTS[kind](b, kind, "single")
             ops.append({"op": "NEW", "obj": "e1", "kind": kind, "params": s2["params"]})
@@ -589,6 +613,8 @@ def gen_class_trace(b, kind, pattern):
         elif between == "restart":
             ops.append({"op": "RESTART", "obj": "e0"})
         for o in reads:
+            if fit_names and fit_names & set(PurityWorld.arg_names(None, o["args"])):
+                continue  # this read's own argument was overwritten: a different input
             o2 = copy.deepcopy(o)
             o2["again"] = between
             o2["env"] = {"rng": {"seed": _seed(rng)}}
